@@ -424,7 +424,8 @@ def assemble(ub):
                 if fs.name in em.stubs:
                     ret, atys = em.stubs[fs.name]
                     sig = '%s %s(%s)' % (ret, fs.name, ', '.join('%s a%d' % (t, i) for i, t in enumerate(atys)) or 'void')
-                elif getattr(fs, 'optional', False):
+                elif getattr(fs, 'optional', False) or fs.body is not None:
+                    # a recording body for a stub this tree does not reach (any more) is simply not needed
                     # the stub is not reached in this tree: its event counter exists and stays 0
                     if us.counters and fs.name.startswith('stub__'):
                         L.append('unsigned g_cnt_%s;' % fs.name[len('stub__'):])
